@@ -517,7 +517,7 @@ class Facts:
                 # function items passed as values (e.g. `.is_some_and(Input::CharProps::is_word_char)`)
                 ops = []
                 if t["k"] == "call":
-                    ops = t["args"]
+                    ops = list(t["args"])  # copy: never mutate the facts
                 for s in b["s"]:
                     if s["k"] == "assign":
                         rv = s["rv"]
